@@ -173,7 +173,11 @@ def sweep_ctor(acc, signed, maxw):
                 try:
                     x = T(arg)
                 except AssertionError:
-                    acc.ok(grp)
+                    if lo <= raw <= hi:
+                        # "whenever it is representable": a representable number must be accepted
+                        acc.fail(grp, grp + "/rejects-representable", f"{name}[{l}:{r}]({arg!r}) is rejected although raw {raw} is within [{lo}, {hi}]")
+                    else:
+                        acc.ok(grp)
                     continue
                 if value_of(x) != v:
                     acc.fail(grp, grp, f"{name}[{l}:{r}]({arg!r}) represents {float(value_of(x))}")
@@ -259,7 +263,7 @@ def fixed_sweep(tier="quick", seed=0):
     maxw = 3 if tier == "quick" else 4
     acc = Acc()
     for signed in (True, False):
-        sweep_resize(acc, signed, maxw if tier == "quick" else 7)  # thorough: all 28 formats with indices in [-3,3]
+        sweep_resize(acc, signed, 5 if tier == "quick" else 7)  # quick: widths <= 5 (2 s); thorough: all 28 formats with indices in [-3,3]
         sweep_arith(acc, signed, 3 if tier == "quick" else 4)
         sweep_ctor(acc, signed, maxw)
     violations = []
@@ -272,7 +276,7 @@ def fixed_sweep(tier="quick", seed=0):
         })
     return {
         "evaluations": acc.n, "distinct": acc.n, "violations": violations, "samples": [{"group": g, "evaluations": c} for g, c in sorted(acc.per.items())][:6],
-        "bounded": [{"function": "std.SFixed / std.UFixed " + g, "case": g, "evaluations": c, "exhaustive_within_bound": True, "bound": f"all formats with left,right in [-3,3], width <= {maxw}, all raw values"} for g, c in sorted(acc.per.items())],
+        "bounded": [{"function": "std.SFixed / std.UFixed " + g, "case": g, "evaluations": c, "exhaustive_within_bound": True, "bound": f"all formats with left,right in [-3,3], width <= {(5 if tier == 'quick' else 7) if g.startswith('resize') else maxw}, all raw values"} for g, c in sorted(acc.per.items())],
     }
 
 
